@@ -153,6 +153,9 @@ func (c *Calcium) withNodesLocked(ctx context.Context, nodeFilter *types.NodeFil
 		return err
 	}
 
+	// always take the locks in ascending key order, whatever order the nodes were given in
+	sort.SliceStable(ns, func(i, j int) bool { return genKey(ns[i]) < genKey(ns[j]) })
+
 	var lock lock.DistributedLock
 	for _, n := range ns {
 		key := genKey(n)
